@@ -39,24 +39,66 @@ var solvers = []solverSpec{
 
 // Solve races the solvers on the obligation. The first unsat wins; otherwise the first sat; otherwise unknown.
 func Solve(o *Obligation, dir string, timeoutSec int) *Result {
-	res := solveGoal(o, o.Goal, "", dir, timeoutSec)
-	if res.Status == "unsat" || o.MustFail || len(o.Parts) == 0 || res.Status == "sat" && !o.ctx.NeedsQuant {
-		return res
+	if o.MustFail || len(o.Parts) == 0 {
+		return solveGoal(o, o.Goal, "", dir, timeoutSec)
 	}
-	// the whole goal did not discharge: try it conjunct by conjunct (same hypotheses)
-	total := res.Seconds
-	solver := ""
-	for i, p := range o.Parts {
-		r := solveGoal(o, p, fmt.Sprintf(".part%d", i+1), dir, timeoutSec)
-		total += r.Seconds
-		if r.Status != "unsat" {
-			r.Detail = fmt.Sprintf("conjunct %d of %d: %s", i+1, len(o.Parts), r.Detail)
-			r.Seconds = total
-			return r
+	// the whole goal and its conjuncts (same hypotheses) are attempted concurrently; the obligation is
+	// discharged when the whole goal is, or when every conjunct is
+	wholeCh := make(chan *Result, 1)
+	go func() { wholeCh <- solveGoal(o, o.Goal, "", dir, timeoutSec) }()
+	partsCh := make(chan *Result, 1)
+	go func() {
+		// conjuncts in parallel, four at a time
+		results := make([]*Result, len(o.Parts))
+		sem := make(chan struct{}, 4)
+		var wg sync.WaitGroup
+		for i, p := range o.Parts {
+			wg.Add(1)
+			sem <- struct{}{}
+			go func(i int, p Term) {
+				defer wg.Done()
+				defer func() { <-sem }()
+				results[i] = solveGoal(o, p, fmt.Sprintf(".part%d", i+1), dir, timeoutSec)
+			}(i, p)
 		}
-		solver = r.Solver
+		wg.Wait()
+		maxT := 0.0
+		solver := ""
+		for i, r := range results {
+			if r.Seconds > maxT {
+				maxT = r.Seconds
+			}
+			if r.Status != "unsat" {
+				r.Detail = fmt.Sprintf("conjunct %d of %d: %s", i+1, len(o.Parts), r.Detail)
+				partsCh <- r
+				return
+			}
+			solver = r.Solver
+		}
+		partsCh <- &Result{Ob: o, Status: "unsat", Solver: solver + " (by conjuncts)", Seconds: maxT}
+	}()
+	var whole, parts *Result
+	for whole == nil || parts == nil {
+		select {
+		case whole = <-wholeCh:
+			if whole.Status == "unsat" || (whole.Status == "sat" && !o.ctx.NeedsQuant) {
+				return whole
+			}
+		case parts = <-partsCh:
+			if parts.Status == "unsat" {
+				parts.SMTBytes = len(o.SMT(false))
+				return parts
+			}
+		}
 	}
-	return &Result{Ob: o, Status: "unsat", Solver: solver + " (by conjuncts)", Seconds: total, SMTBytes: res.SMTBytes}
+	if parts.Status == "sat" {
+		return parts
+	}
+	if whole.Status == "sat" {
+		return whole
+	}
+	parts.SMTBytes = whole.SMTBytes
+	return parts
 }
 
 func solveGoal(o *Obligation, goal Term, suffix, dir string, timeoutSec int) *Result {
